@@ -663,6 +663,13 @@ class Run8:
         if not ok:
             self.problem("error", what="could not take a snapshot", out=out)
             return
+        if kind == "cur" and self.counts["take"] % 2 == 0:
+            # every other held cursor is walked to its end at once: an exhausted cursor is still a live reader
+            # (it can be rewound), so it must keep its version's files exactly like a fresh one (seeded/C08-r3-1)
+            out = self.icmd("cur step r%d F%s" % (r, ",N" * 40))[0]
+            self.counts["cursor_exhausted_while_held"] = self.counts.get("cursor_exhausted_while_held", 0) + 1
+            if "err:" in out:
+                self.problem("needed", what="a scan cursor failed while being walked to its end", out=out)
         self.held[r] = kind
         obs = self.model.cmd("take %d" % r)
         self.counts["take"] += 1
